@@ -189,6 +189,14 @@ def group_case(sh, case, driver='group'):
             bg = BycycleGroup(thresholds=copy.deepcopy(case['thr']))
             bg.fit(np.array(sigs, copy=True), case['fs'], tuple(case['f_range']), axis=0, n_jobs=1)
             old = [m.df_features['is_burst'].to_numpy().astype(bool).copy() for m in bg.models]
+    except Exception as e:
+        # the fit itself is not this property's business (a row without enough oscillations is outside the domain)
+        sh.note('group_fit_raised:' + type(e).__name__)
+        attach.take_violations()
+        sh.case_done(case, False)
+        return
+    try:
+        with quiet():
             bg.recompute_edges(case['reduction'])
     except ValueError:
         sh.note('group_reduced_threshold_rejected')
